@@ -52,7 +52,27 @@ def ctor(level):
         "stochastic": lambda t: gbigsmiles.Stochastic(t, 0),
         "molecule": lambda t: gbigsmiles.Molecule(t),
         "system": lambda t: gbigsmiles.System(t),
+        "stochastic-call": lambda t: _StochCall(gbigsmiles, t),
     }[level]
+
+
+class _StochCall:
+    """misuse of the call interface: Stochastic.generate(prefix=MolGen(token))"""
+
+    generable = True
+
+    def __init__(self, gbigsmiles, t):
+        from gbigsmiles.mol_gen import MolGen
+
+        self.text = t
+        self.pre = MolGen(gbigsmiles.SmilesToken(t[0], 0, 0))
+        self.obj = gbigsmiles.Stochastic(t[1], 1)
+
+    def generate(self, rng):
+        return self.obj.generate(prefix=self.pre, rng=rng)
+
+    def __str__(self):
+        return f"Stochastic({self.text[1]!r}).generate(prefix=MolGen(SmilesToken({self.text[0]!r})))"
 
 
 # ------------------------------------------------------------------ operators -----------------
@@ -197,6 +217,42 @@ def op_wrong_prefix(rng, m):
     return "molecule", txt + rest, "generate"
 
 
+def _bidirectional_object(rng):
+    """A stochastic object that a prefix with the WRONG descriptor could enter silently: its units and end groups offer a partner for the
+    wrong descriptor too, and its right end is closed.  -> (prefix token AST, StochAst, wrong descriptor)"""
+    ctx = gen.Ctx(rng, small=rng.random() < 0.6, form="dir")
+    if rng.random() < 0.5:
+        # wrong symbol: '<' where the left terminal says '>'
+        u = [ctx.unit([ctx.lt(), ctx.gt()]) for _ in range(rng.choice([1, 1, 2]))]
+        ends = [ctx.end(ctx.lt()), ctx.end(ctx.gt())]
+        left, wrong = gen.D(">", ctx.base_id), gen.D("<", ctx.base_id)
+    else:
+        # wrong id: the other id of an alternating pair
+        i1, i2 = rng.sample([1, 2, 3, 4, 11, 25], 2)
+        u = [ctx.unit([ctx.lt(i1), ctx.gt(i2)]), ctx.unit([ctx.lt(i2), ctx.gt(i1)])]
+        ends = [ctx.end(ctx.lt(i1)), ctx.end(ctx.lt(i2))]
+        left, wrong = gen.D(">", i1), gen.D(">", i2)
+    s = StochAst(left, gen.D(""), u, ends, gen._dist_for(ctx, u, 2))
+    return ctx.plain(), s, wrong
+
+
+def op_wrong_prefix_enterable(rng, m):
+    pre, s, wrong = _bidirectional_object(rng)
+    return "molecule", pre.to_text() + print_desc(wrong) + s.to_text(True, 0, False), "generate"
+
+
+def op_wrong_prefix_direct(rng, m):
+    """Stochastic.generate(prefix=...) called directly with a fragment whose open descriptor differs from the left terminal"""
+    pre, s, wrong = _bidirectional_object(rng)
+    return "stochastic-call", (pre.to_text() + print_desc(wrong), s.to_text(True, 0, False)), "generate"
+
+
+def op_prefix_two_open(rng, m):
+    """Stochastic.generate(prefix=...) with a prefix fragment that has two open descriptors (one expected)"""
+    pre, s, wrong = _bidirectional_object(rng)
+    return "stochastic-call", (print_desc(Desc(s.left.sym, s.left.id)) + pre.to_text() + print_desc(Desc(s.left.sym, s.left.id)), s.to_text(True, 0, False)), "generate"
+
+
 def op_system_nongenerable(rng, m):
     return "system", m.to_text() + ".|30%|CCO.|70%|", "nongenerable"
 
@@ -214,6 +270,9 @@ OPS = {
     "object-without-distribution": op_no_distribution,
     "missing-prefix": op_missing_prefix,
     "prefix-descriptor-differs": op_wrong_prefix,
+    "prefix-descriptor-differs-enterable": op_wrong_prefix_enterable,
+    "prefix-descriptor-differs-direct-call": op_wrong_prefix_direct,
+    "prefix-with-two-open-descriptors": op_prefix_two_open,
     "system-not-generable": op_system_nongenerable,
 }
 
